@@ -5,6 +5,7 @@ from harness.gen.sessions import gen_case, SidCounter
 THEOREM_NOTE = ("Props/C09.lean: after force-quit no handler call is ever added to the trace, enqueues are discarded, execute_new_loop is a no-op and every loop test exits; an "
                 "exit request drops every pending instruction of every nesting depth up to run()'s own catcher, the quit callback is logged at most once with the registered "
                 "argument; a run that returned contains an exit or force-quit event; run() refuses an empty stack unless configured otherwise")
+HANG_IS_VIOLATION = "run() returns: the implementation hangs on a session the model finishes"
 ASSUMPTIONS = ASSUME_SESSION
 RULE = ("[thorough tier adds the small-scope exhaustive enumeration of harness/gen/exhaustive.py: every loop program with a <= 2-action and a <= 1-action handler over a 10-action alphabet, 3 663 programs] loop and app programs with the stop request (raise ExitMainLoop, force_quit, close of the outermost loop, last screen closed, quit key) at every depth <= 5 and position, "
         "arbitrary pending content, further enqueues after force-quit; oracle: no handler invocation after the stop request, quit callback count and argument, run() returned "
